@@ -214,7 +214,19 @@ def _exports(t):
     """Serialise through every writer; decode each with an independent
     reader so the comparison is about content."""
     out = {}
+    before_md = (observe.md_list(t, "observation"),
+                 observe.md_list(t, "sample"))
+    before_eq = t.copy()
     out["tsv"] = t.to_tsv()
+    # with one observation-metadata column; a category only some (or none)
+    # of the observations carry is exported as missing
+    omd = t.metadata(axis="observation")
+    if omd is not None:
+        keys = sorted({k for m in omd if m for k in m}) + ["absent-key"]
+        for key in (keys[0], keys[-1]):
+            out["tsv_md:" + ("absent" if key == "absent-key" else "first")] \
+                = t.to_tsv(header_key=key, header_value="col",
+                           metadata_formatter=lambda v: "%r" % (v,))
     out["json"] = json.loads(t.to_json("vf", creation_date=DATE))
     sio = io.StringIO()
     t.to_json("vf", direct_io=sio, creation_date=DATE)
@@ -224,6 +236,14 @@ def _exports(t):
         d = h5spec.decode(f)
     d.pop("problems", None)
     out["hdf5"] = d
+    # exporting is read-only
+    if (observe.md_list(t, "observation"),
+            observe.md_list(t, "sample")) != before_md or \
+            not (t == before_eq):
+        raise Violation("export-modifies-table", "metadata before the "
+                        "exports %r, after %r" %
+                        (before_md, (observe.md_list(t, "observation"),
+                                     observe.md_list(t, "sample"))))
     return out
 
 
@@ -245,8 +265,31 @@ def _queries(t, exact_sums=True, order=0):
     def samp_data():
         q["samp_data"] = [t.data(i, axis="sample").tolist()
                           for i in t.ids()]
-    fams = [cells, obs_data, samp_data]
-    for f in fams[order % 3:] + fams[:order % 3]:
+    def nonzero():
+        q["nonzero"] = sorted((str(a), str(b)) for a, b in t.nonzero())
+
+    def extremes():
+        # (minimum / maximum *non-zero* value; undefined - an error - for an
+        # all-zero vector, which equal tables must then agree on too)
+        def ext(f, a):
+            try:
+                return np.asarray(f(a)).tolist()
+            except ValueError:
+                return "undefined"
+        q["min"] = [ext(t.min, a) for a in ("sample", "observation", "whole")]
+        q["max"] = [ext(t.max, a) for a in ("sample", "observation", "whole")]
+
+    def sparse_vectors():
+        q["sparse_vectors"] = [
+            [np.asarray(v.toarray()).ravel().tolist()
+             for v in t.iter_data(axis=a, dense=False)]
+            for a in ("sample", "observation")]
+        q["nonzero_counts"] = [
+            np.asarray(t.nonzero_counts(a)).tolist()
+            for a in ("sample", "observation", "whole")]
+    fams = [cells, obs_data, samp_data, nonzero, extremes, sparse_vectors]
+    k = order % len(fams)
+    for f in fams[k:] + fams[:k]:
         f()
     q["obs_md"] = observe.md_list(t, "observation")
     q["samp_md"] = observe.md_list(t, "sample")
@@ -254,7 +297,6 @@ def _queries(t, exact_sums=True, order=0):
         # float sums are order dependent unless every partial sum is exact
         q["sum"] = [t.sum("sample").tolist(), t.sum("observation").tolist()]
     q["nnz"] = int(t.nnz)
-    q["nonzero"] = sorted((str(a), str(b)) for a, b in t.nonzero())
     return q
 
 
@@ -312,6 +354,20 @@ def check(case, rec):
                             (k, lays[k], {x: q_[x] for x in
                                           ("cells", "obs_data", "samp_data")},
                              dense_q))
+
+        want_nz = sorted((o, s_) for a, o in enumerate(spec["obs"])
+                         for b, s_ in enumerate(spec["samp"])
+                         if dense_q[a][b] != 0)
+        if q_["nonzero"] != want_nz:
+            raise Violation("query-differs-from-content", "route %d (layout "
+                            "%r): nonzero() lists %r, the non-zero cells are "
+                            "%r" % (k, lays[k], q_["nonzero"], want_nz))
+        for key in q_:
+            if q_[key] != fq[0][key]:
+                raise Violation("queries-differ", "fresh routes 0,%d (layouts"
+                                " %r, %r) answer %s differently: %r vs %r" %
+                                (k, lays[0], lays[k], key, fq[0][key],
+                                 q_[key]))
 
     # exports of fresh builds, written in whatever layout the route's
     # history left behind (== would re-lay-out the table first)
